@@ -331,6 +331,14 @@ func (m *Manager) AddValidatedV2Blocks(blocks []types.Block, states []consensus.
 		if blocks[i].V2 == nil {
 			return errors.New("only v2 blocks can be pre-validated")
 		}
+		bid := blocks[i].ID()
+		if _, _, ok := m.store.Block(bid); !ok {
+			if _, pruned := m.store.Header(bid); pruned {
+				// the header is still there but the body is gone: the block
+				// was applied and later pruned; don't store it again
+				continue
+			}
+		}
 		m.store.AddBlock(blocks[i], &consensus.V1BlockSupplement{})
 		m.store.AddState(states[i])
 	}
